@@ -346,7 +346,7 @@ pub static C05: PropSpec = PropSpec {
     id: "C05",
     simulator: "S-sim",
     level: "exploration",
-    runs: |t| if t == Tier::Thorough { 4_000_000 } else { 300_000 },
+    runs: |t| if t == Tier::Thorough { 30_000_000 } else { 300_000 },
     enumerated: |_| 0,
     run: run_c05,
     rule: "seeded schedules over 1-8 pipelined get/lock requests; each reply future awaited at once, kept and joined, or moved to its own task; replies delivered in order or permuted; send back-pressure; spurious polls. A run is non-trivial when >=2 replies were in flight at a delivery or a reader parked a reply for another waiter; distinct = distinct event-log hash (scheduler actions + messages)",
@@ -361,7 +361,7 @@ pub static C18: PropSpec = PropSpec {
     id: "C18",
     simulator: "S-sim",
     level: "exploration",
-    runs: |t| if t == Tier::Thorough { 4_000_000 } else { 300_000 },
+    runs: |t| if t == Tier::Thorough { 30_000_000 } else { 300_000 },
     enumerated: |_| 0,
     run: run_c18,
     rule: "the C05 space plus the scheduler action 'drop reply future j' (1-2 drops per run) enabled at every step for every future living in its own task - i.e. at each of its suspension points - and 'drop unpolled'; afterwards one more request is issued. Non-trivial = at least one future was dropped; distinct = distinct event-log hash",
